@@ -26,6 +26,8 @@ func c04(c *Sexp) *Sexp {
 		return c04Edit(c)
 	case "handbuilt":
 		return c04HandBuilt(c)
+	case "indexseq":
+		return c04IndexSeq(c)
 	case "parmap":
 		return c04ParMap(c)
 	case "samebip":
@@ -597,4 +599,113 @@ func c04ParMap(c *Sexp) *Sexp {
 		reps.List = append(reps.List, c04ParMapOnce(c))
 	}
 	return L(KV("reps", reps))
+}
+
+// indexseq: the indexing step is one of the sequences the public API allows, on a tree with or
+// without an earlier (full or partial) indexing.
+func c04ThreeCalls(t *tree.Tree) error {
+	if err := t.UpdateTipIndex(); err != nil {
+		return err
+	}
+	if err := t.ClearBitSets(); err != nil {
+		return err
+	}
+	return t.UpdateBitSet()
+}
+
+func c04IndexSeq(c *Sexp) *Sexp {
+	t, err := c04Build(c.Get("tree"))
+	if err != nil {
+		return L(KV("panic", A(err.Error())))
+	}
+	var operr error
+	reroot := func() error {
+		nodes := t.Nodes()
+		return t.Reroot(nodes[c.Int("i")%len(nodes)])
+	}
+	switch c.Str("pre") {
+	case "none":
+	case "reinit":
+		operr = t.ReinitIndexes()
+	case "reroot":
+		operr = reroot()
+	case "hashes":
+		t.ComputeEdgeHashes(nil, nil, nil)
+	case "reinit_reroot":
+		if operr = t.ReinitIndexes(); operr == nil {
+			operr = reroot()
+		}
+	default:
+		return L(KV("panic", A("unknown pre")))
+	}
+	if operr == nil {
+		switch c.Str("seq") {
+		case "reinit":
+			operr = t.ReinitIndexes()
+		case "three":
+			operr = c04ThreeCalls(t)
+		case "three_hashes":
+			if operr = c04ThreeCalls(t); operr == nil {
+				t.ComputeEdgeHashes(nil, nil, nil)
+			}
+		case "tipindex":
+			operr = t.UpdateTipIndex()
+		case "nothing":
+		default:
+			return L(KV("panic", A("unknown seq")))
+		}
+	}
+	d, audit := ObserveTree(t)
+	obs := []*Sexp{KV("operr", A(errStr(operr))), KV("tree", d), KV("audit", audit)}
+	if operr != nil {
+		return L(obs...)
+	}
+	tips := L()
+	for _, n := range t.Tips() {
+		tips.List = append(tips.List, L(A(n.Name()), I(n.TipIndex())))
+	}
+	edges := L()
+	allbits := true
+	for _, e := range t.Edges() {
+		dep, derr := e.TopoDepth()
+		if derr != nil {
+			dep = -1
+		}
+		if e.Bitset() == nil {
+			allbits = false
+		}
+		hl, hr := e.VerifHashes()
+		edges.List = append(edges.List, L(A(c04Bits(e)), I(e.NumTipsRight()), I(e.NumTipsLeft()), I(dep),
+			U64(e.HashCode()), U64(hl), U64(hr), B(e.Right().Tip())))
+	}
+	obs = append(obs, KV("tips", tips), KV("edges", edges))
+	// two independent copies of the dumped structure: fully indexed, and indexed by the three calls only
+	if allbits {
+		for _, how := range []string{"full", "three"} {
+			cp, err := BuildTree(d)
+			if err == nil {
+				if how == "full" {
+					err = cp.ReinitIndexes()
+				} else {
+					err = c04ThreeCalls(cp)
+				}
+			}
+			if err != nil {
+				obs = append(obs, KV("copyerr_"+how, A(errStr(err))))
+				continue
+			}
+			e1 := t.Edges()
+			e2 := cp.Edges()
+			same := make([]bool, 0, len(e1)*len(e2))
+			heq := make([]bool, 0, len(e1)*len(e2))
+			for _, x := range e1 {
+				for _, y := range e2 {
+					same = append(same, x.SameBipartition(y))
+					heq = append(heq, x.HashCode() == y.HashCode())
+				}
+			}
+			obs = append(obs, KV("copyerr_"+how, A("")), KV("same_"+how, c04BoolBits(same)), KV("heq_"+how, c04BoolBits(heq)))
+		}
+	}
+	return L(obs...)
 }
